@@ -12,6 +12,8 @@ import ClarabelProofs.Lemmas.LoopPrefix
 import ClarabelProofs.Lemmas.LoopStep
 import ClarabelProofs.Lemmas.LoopSoc
 import ClarabelProofs.Props.C15
+import ClarabelProofs.Lemmas.SolverModelPrefix
+import ClarabelProofs.Lemmas.SolverModelExample
 
 namespace Clarabel.C07
 open Clarabel Clarabel.Loop Clarabel.Loop.Step
@@ -184,5 +186,79 @@ theorem init_budget_independent (cfg : Config α) (k' : Nat) (z : α) :
     initState (withBudget cfg k') z = initState cfg z := rfl
 
 end structural
+
+end Clarabel.C07
+
+/-! ## The full model (`ClarabelModel/Solver/Solve.lean`: `DefaultSolver::new` + `solve()`)
+
+Budget independence stated on `SolverSt.runSolve` itself (not on the skeleton): the executable
+model that the channels `solve.full / solve.twice` of `harness/src/bin/solver.rs` compare bit for
+bit with the implementation.  Class [S]: holds at `Float`.  Helper lemmas:
+`Lemmas/SolverModelPrefix.lean`. -/
+namespace Clarabel.C07
+open Clarabel Clarabel.Solver
+
+section full
+set_option linter.unusedSectionVars false
+variable {α : Type} [Add α] [Sub α] [Mul α] [Div α] [Neg α] [OfNat α 0] [OfNat α 1] [OfNat α 2]
+  [OfNat α 100] [OfNat α 1000] [LT α] [DecidableLT α] [LE α] [DecidableLE α] [BEq α] [FloatLike α]
+
+/-- [S] `C07.full_pass_budget_independent`: `max_iter` enters one pass of the full model through
+the test `max_iter == iterations` of `check_termination` only.  A pass from a loop state `L` is
+the same computation — same result or same error, bit for bit — under the budgets `k` and `k'`,
+unless the numbers of this pass give no verdict (`verdictOf … = Unsolved`) and the iteration
+counter sits exactly at one of the two budgets. -/
+theorem full_pass_budget_independent (st : Solver.Settings α) (k k' : Nat) (L : LoopSt α)
+    (h : ∀ r mu i1, topNumerics L.S L.iter = .ok (r, mu, i1) →
+      verdictOf i1 r.dot_bz r.dot_qx st.info L.iter ≠ .unsolved ∨ (k ≠ L.iter ∧ k' ≠ L.iter)) :
+    pass (withMaxIter st k) L = pass (withMaxIter st k') L :=
+  pass_budget_indep st k k' L h
+
+/-- [S] `C07.full_prefix`: budget independence of the full model.  Let `k ≤ k'` and let the run
+with `max_iter = k` succeed with final loop state `Lk`.  Then both runs start their loop from the
+same state `initLoopSt S0` (`default_start` does not read the budget) and
+
+* the run with `max_iter = k'` reaches, through passes that all continue, a top-of-pass state `Lm`
+  that the short run reaches too — the *same* loop state: every iterate, residual, scaling,
+  KKT factor and trajectory record up to there is identical, bit for bit
+  (`Reach (withMaxIter st k) … Lm` and `Reach (withMaxIter st k') … Lm`);
+* the short run leaves its loop in the pass from `Lm`; either the long run does exactly the same in
+  that pass (`FullPrefix.same`; then the long run returns the very same loop state:
+  `S.runSolve (withMaxIter st k') = .ok Lk`), or (`FullPrefix.budget`) `Lm.iter = k`, the numbers give no
+  verdict, the short run stops there with `MaxIterations` and hands `Lm`'s iterate —
+  the `k`-th iterate of the longer run — unchanged to post-processing
+  (`Lk.S.variables = Lm.S.variables`, `Lk.iter = k`, one more trajectory record whose iterate is
+  that very point). -/
+theorem full_prefix (S : SolverSt α) (st : Solver.Settings α) (k k' : Nat) (hk : k ≤ k') {Lk : LoopSt α}
+    (h : S.runSolve (withMaxIter st k) = .ok Lk) :
+    ∃ S0, (resetInfo S).defaultStart st = .ok S0
+      ∧ FullPrefix st k k' (initLoopSt S0) Lk
+      ∧ (S.runSolve (withMaxIter st k') = .ok Lk ∨ Lk.S.info.status = .maxIterations ∧ Lk.iter = k) :=
+  runSolve_prefix S st k k' hk h
+
+/-- [S] the start of a solve does not depend on the budget -/
+theorem full_start_budget_independent (S : SolverSt α) (st : Solver.Settings α) (k : Nat) :
+    S.defaultStart (withMaxIter st k) = S.defaultStart st := rfl
+
+end full
+
+/-! non-vacuity: the example of `Lemmas/SolverModelExample.lean`, evaluated by the kernel at `Int`:
+the run with `max_iter = 0` (one pass, `MaxIterations`) is a prefix of the run with `max_iter = 3`
+(two passes, `Solved` after one iteration), and returns the start point -/
+section fullExamples
+open Clarabel.Solver.Example
+attribute [local instance] intFloatLike
+
+example : withMaxIter (st 3) 0 = st 0 := rfl
+example : (run 0).toOption.map (fun r => (r.passes, r.S.solution.status, r.S.solution.iterations))
+    = some (1, .maxIterations, 0) := run0
+example : (run 3).toOption.map (fun r => (r.passes, r.S.solution.status, r.S.solution.iterations))
+    = some (2, .solved, 1) := run3
+/-- the iterate of the first pass record is the same in both runs -/
+example : (run 0).toOption.map (fun r => r.traj.head?.map (fun p => (p.vars.x.toList, p.vars.s.toList, p.vars.z.toList)))
+    = (run 3).toOption.map (fun r => r.traj.head?.map (fun p => (p.vars.x.toList, p.vars.s.toList, p.vars.z.toList))) := by
+  decide +kernel
+
+end fullExamples
 
 end Clarabel.C07
